@@ -22,6 +22,12 @@ def main():
         if prop in ("C01", "C02", "C06", "C11"):
             import check_calls
             return check_calls.check(prop, tier, seed, replay)
+        if prop == "C19":
+            import check_sort
+            return check_sort.check(prop, tier, seed, replay)
+        if prop == "C14":
+            import check_config
+            return check_config.check(prop, tier, seed, replay)
         print("no check for", prop)
         return 2
     except vlib.Infra as e:
